@@ -12,6 +12,7 @@ import (
 	"os"
 	"path/filepath"
 	"sort"
+	"strconv"
 	"strings"
 
 	"github.com/vektah/gqlparser/v2"
@@ -174,6 +175,10 @@ func runUploads(c *gen.Ctx, r *gen.Rand, meta *gen.Meta) (int, error) {
 		req{"map entry without its file part", uploadBody(bd, one, `{"0":["variables.f"],"1":["variables.f"]}`, []string{big}), "client", nil},
 		req{"no variables at all", uploadBody(bd, `{"query":"mutation($f: Upload!) { one(file: $f) }"}`, `{"0":["variables.f"]}`, []string{big}), "client", nil},
 	)
+	fcf := &gen.CaseFile{Dir: c.OutDir, Prop: "C10", Kind: "form", Requires: []string{"Base.Prelude", "Model.Upload", "Model.UploadForm", "Corr.Corr_C10"}, Type: "form_case",
+		Checks: []gen.Check{{Label: "corr", Fn: "form_corr"}, {Label: "mon", Fn: "form_mon"}, {Label: "monmodel", Fn: "form_monmodel"}}, Shard: 400}
+	var fdescr []any
+	formStats := map[string]int{}
 	n := 0
 	for _, mode := range []struct {
 		name          string
@@ -239,6 +244,27 @@ func runUploads(c *gen.Ctx, r *gen.Rand, meta *gen.Meta) (int, error) {
 					problems = append(problems, fmt.Sprintf("a malformed or oversized upload was answered %d (executed: %v): %s", w.Code, execs != execsBefore, strings.TrimSpace(w.Body.String())))
 				}
 			}
+			// the same request as a case for the model of the handler
+			form, table := classifyForm(rq.body, bd, mode.maxMem, mode.maxUp)
+			var fids []string
+			for _, d := range delivered {
+				fid := 0
+				for i, t := range table {
+					if t.content == d.content && t.name == d.name {
+						fid = i + 1
+					}
+				}
+				fids = append(fids, fmt.Sprintf("%d%%nat", fid))
+			}
+			acc := jerr == nil && w.Code == 200 && len(resp.Errors) == 0 && execs == execsBefore+1
+			fcf.Add(fmt.Sprintf("{| fc_form := %s; fc_accepted := %s; fc_leftover := %d; fc_delivered := %s; fc_recovered := %s |}",
+				form, gen.Bool(acc), len(left), gen.List(fids), gen.Bool(recovers != before)))
+			if acc {
+				formStats[mode.name+": accepted"]++
+			} else {
+				formStats[mode.name+": refused"]++
+			}
+			fdescr = append(fdescr, map[string]any{"mode": mode.name, "request": rq.name, "status": w.Code, "accepted": acc, "left_over_files": len(left), "form": form})
 			if len(problems) > 0 {
 				meta.Direct = append(meta.Direct, gen.DirectFinding{Signature: "multipart-upload-" + strings.ReplaceAll(mode.name, " ", "-"),
 					What:   rq.name + " (" + mode.name + "): " + strings.Join(problems, "; "),
@@ -254,6 +280,91 @@ func runUploads(c *gen.Ctx, r *gen.Rand, meta *gen.Meta) (int, error) {
 			meta.Direct = append(meta.Direct, gen.DirectFinding{Signature: "server-stops-serving", What: fmt.Sprintf("after the malformed uploads a plain query was answered %d", w.Code), Replay: mode.name})
 		}
 	}
+	if err := meta.AddCaseFile(fcf, fdescr); err != nil {
+		return 0, err
+	}
+	if meta.Distribution != nil {
+		meta.Distribution["upload_forms_against_the_handler_model"] = formStats
+	}
 	meta.Notes = append(meta.Notes, fmt.Sprintf("%d multipart uploads (5 well-formed shapes incl. one file mapped twice, reverse part order and an empty file, each checked for exact bytes/name/type/size and independent seekable readers; bodies cut at every structural point and inside the file content, bad operations/map JSON, unmapped and missing parts, no variables) x {in memory, spilled to disk, over MaxUploadSize}: client error or success, recover hook never, private TMPDIR empty after every request", n))
 	return n, nil
+}
+
+type filePart struct{ name, ctype, content string }
+
+// classifyForm reads the request body the way mime/multipart presents it and renders it as the model's form:
+// size gates, operations variables, map, and the file parts as complete / cut off / unreadable.
+func classifyForm(body []byte, boundary string, maxMem, maxUp int64) (string, []filePart) {
+	over := int64(len(body)) > maxUp
+	spill := !(int64(len(body)) < maxMem)
+	ops, mp := "None", "None"
+	var parts []string
+	var table []filePart
+	mr := multipart.NewReader(bytes.NewReader(body), boundary)
+	func() {
+		p, err := mr.NextPart()
+		if err != nil || p.FormName() != "operations" {
+			return
+		}
+		var params struct {
+			Variables map[string]any `json:"variables"`
+		}
+		dec := json.NewDecoder(p)
+		dec.UseNumber()
+		if err := dec.Decode(&params); err != nil {
+			return
+		}
+		ops = "(Some " + varsCoq(params.Variables) + ")"
+		p, err = mr.NextPart()
+		if err != nil || p.FormName() != "map" {
+			return
+		}
+		um := map[string][]string{}
+		if err := json.NewDecoder(p).Decode(&um); err != nil {
+			return
+		}
+		keys := make([]string, 0, len(um))
+		for k := range um {
+			keys = append(keys, k)
+		}
+		sort.Strings(keys)
+		var entries []string
+		for _, k := range keys {
+			var ps []string
+			for _, path := range um[k] {
+				hasPrefix := strings.HasPrefix(path, "variables.")
+				var segs []string
+				if hasPrefix {
+					for _, sg := range strings.Split(path, ".")[1:] {
+						if n, err := strconv.Atoi(sg); err == nil {
+							segs = append(segs, fmt.Sprintf("SegIdx %s %s", gen.Str(sg), gen.Z(int64(n))))
+						} else {
+							segs = append(segs, "SegKey "+gen.Str(sg))
+						}
+					}
+				}
+				ps = append(ps, fmt.Sprintf("(%s, %s)", gen.Bool(hasPrefix), gen.List(segs)))
+			}
+			entries = append(entries, fmt.Sprintf("(%s, %s)", gen.Str(k), gen.List(ps)))
+		}
+		mp = "(Some " + gen.List(entries) + ")"
+		for {
+			p, err := mr.NextPart()
+			if err == io.EOF {
+				return
+			}
+			if err != nil {
+				parts = append(parts, "PBad")
+				return
+			}
+			content, err := io.ReadAll(p)
+			if err != nil {
+				parts = append(parts, "PCut "+gen.Str(p.FormName()))
+				return
+			}
+			table = append(table, filePart{p.FileName(), p.Header.Get("Content-Type"), string(content)})
+			parts = append(parts, fmt.Sprintf("PFile %s %d", gen.Str(p.FormName()), len(table)))
+		}
+	}()
+	return fmt.Sprintf("{| fm_over := %s; fm_spill := %s; fm_ops := %s; fm_map := %s; fm_parts := %s |}", gen.Bool(over), gen.Bool(spill), ops, mp, gen.List(parts)), table
 }
